@@ -1625,7 +1625,9 @@ class TokamakEquilibrium(Equilibrium):
                     if region["psi"] is None:
                         raise ValueError("No psi values in region")
                     leg_psi = region["psi"]
-                    eqreg.pressure = lambda psi: self.pressure(
+                    # Bind leg_psi as a default argument: a plain closure would see
+                    # the value from the last leg processed in this loop
+                    eqreg.pressure = lambda psi, leg_psi=leg_psi: self.pressure(
                         leg_psi + sign * abs(psi - leg_psi)
                     )
                 else:
